@@ -9,11 +9,6 @@ type nat =
 | O
 | S of nat
 
-(** val snd : ('a1 * 'a2) -> 'a2 **)
-
-let snd = function
-| (_, y) -> y
-
 (** val length : 'a1 list -> nat **)
 
 let rec length = function
@@ -1403,17 +1398,16 @@ let res_ok o l =
                | _ -> false)
   | None -> false
 
-(** val bindo : (z * nat) list -> z -> nat -> (z * nat) list option **)
+(** val bindo :
+    (nat -> bool) -> (z * nat) list -> z -> nat -> (z * nat) list option **)
 
-let bindo m o f =
+let bindo dead m o f =
   match zassoc m o with
-  | Some f' -> if Nat.eqb f f' then Some m else None
+  | Some f' ->
+    if Nat.eqb f f'
+    then Some m
+    else if dead f' then Some ((o, f) :: m) else None
   | None -> Some ((o, f) :: m)
-
-(** val unbind : (z * nat) list -> nat -> (z * nat) list **)
-
-let unbind m f =
-  filter (fun p0 -> negb (Nat.eqb (snd p0) f)) m
 
 (** val bindthr :
     (nat -> nat option) -> nat -> nat -> (nat -> nat option) option **)
@@ -1581,7 +1575,8 @@ let mkplan s e =
                                  | XH ->
                                    (match x.tm t0 with
                                     | MKer k ->
-                                      (match bindo x.oco obj (m.sb k).sfd with
+                                      (match bindo m.closed x.oco obj
+                                               (m.sb k).sfd with
                                        | Some oc ->
                                          (match (m.sb k).spc_ with
                                           | SStore ->
@@ -1604,7 +1599,7 @@ let mkplan s e =
                                        | Some f' ->
                                          (match m.sel f' with
                                           | SEv _ ->
-                                            (match bindo x.oco obj f' with
+                                            (match bindo m.closed x.oco obj f' with
                                              | Some oc ->
                                                chk
                                                  ((&&) (negb (znz v))
@@ -1613,7 +1608,7 @@ let mkplan s e =
                                                    ((SelTake f') :: []))
                                              | None -> None)
                                           | THnd2 (_, _) ->
-                                            (match bindo x.oco obj f' with
+                                            (match bindo m.closed x.oco obj f' with
                                              | Some oc ->
                                                chk
                                                  (eqb (znz v)
@@ -1740,12 +1735,7 @@ let mkplan s e =
                                     | XO p6 ->
                                       (match p6 with
                                        | XH ->
-                                         let x' =
-                                           set_oco
-                                             (set_oflag x (unbind x.oflag f')
-                                               x.preflag) (unbind x.oco f')
-                                         in
-                                         acts x'
+                                         acts x
                                            (app
                                              (if (&&)
                                                    (Z.eqb op (Zpos (XO XH)))
@@ -1758,12 +1748,7 @@ let mkplan s e =
                                               else (Close f') :: []))
                                        | _ -> None)
                                     | XH ->
-                                      let x' =
-                                        set_oco
-                                          (set_oflag x (unbind x.oflag f')
-                                            x.preflag) (unbind x.oco f')
-                                      in
-                                      acts x'
+                                      acts x
                                         (app
                                           (if (&&) (Z.eqb op (Zpos (XO XH)))
                                                 (negb (m.p f').wshut)
@@ -1867,7 +1852,7 @@ let mkplan s e =
                                          (match m.sel f' with
                                           | SIdle -> ok x
                                           | SEv _ ->
-                                            (match bindo x.oco obj f' with
+                                            (match bindo m.closed x.oco obj f' with
                                              | Some oc ->
                                                chk
                                                  (eqb (znz v)
@@ -2159,7 +2144,7 @@ let mkplan s e =
                                 (match p5 with
                                  | XH ->
                                    if at_ PReset
-                                   then (match bindo x.oflag obj f with
+                                   then (match bindo m.closed x.oflag obj f with
                                          | Some ofl ->
                                            let pre =
                                              (&&)
